@@ -258,6 +258,10 @@ def gen_cases(tier, rng):
         variants(s, st, "pair", thorough, False)
     for s, st in random_soup(rng, 1500 if not thorough else 60000):
         variants(s, st, "soup", len(s) <= 40, True)
+    # script elements: the tree builder answers Script at each </script>, the driver must resume until the chunk is used up
+    for s in ["<a><script>x</script>y<b/>z</a>", "<script/>t<r/>", "<r><script></script><script>s</script>u</r>",
+              "<script>1</script><script>2</script>w", "<a><script>x</script>", "<a><script>x</script>\r\n<!--c-->&amp;<c/></a>"]:
+        variants(s, "-", "script", True, True)
     # BOM: only the first character of the stream, only with discard_bom
     for s in ["﻿", "﻿a", "a﻿", "﻿﻿a", "﻿<a/>", "<a>﻿</a>", "x﻿﻿", "﻿\r\n<a b='﻿'/>"]:
         for bom in (0, 1):
